@@ -154,8 +154,9 @@ produceLoop:
 }
 
 func getOctoSQLValue(t octosql.Type, value *fastjson.Value) (out octosql.Value, ok bool) {
-	if value == nil {
-		return octosql.NewNull(), t.TypeID == octosql.TypeIDNull
+	if value == nil || value.Type() == fastjson.TypeNull {
+		// A missing key and an explicit null are both NULL, which fits any type that has NULL as an alternative.
+		return octosql.NewNull(), octosql.Null.Is(t) == octosql.TypeRelationIs
 	}
 
 	switch t.TypeID {
@@ -193,6 +194,10 @@ func getOctoSQLValue(t octosql.Type, value *fastjson.Value) (out octosql.Value, 
 		if value.Type() == fastjson.TypeArray {
 			arr, _ := value.Array()
 			values := make([]octosql.Value, len(arr))
+			if t.List.Element == nil {
+				// Only empty lists have been seen when inferring the schema.
+				return octosql.NewList(values), len(arr) == 0
+			}
 
 			outOk := true
 			for i := range arr {
